@@ -1,1 +1,115 @@
+(* C09_Props.v — the property theorems of C09 and nothing else.
+   Each is closed by `exact <lemma>` and followed by Print Assumptions. *)
+From Coq Require Import Lia.
 From V Require Import C09_Spec C09_Proofs.
+Open Scope N_scope.
+
+(* Chunking never matters: for EVERY byte string, read schedule, error-delivery mode and
+   ending (EOF / other error / stall), the runner's reader returns what the schedule-free
+   whole-stream parse `expected` says. *)
+Theorem any_sched : forall max d sch eg t,
+  read_all max (mk_src d sch eg t) = expected (Some max) t d.
+Proof. exact any_sched_proof. Qed.
+Print Assumptions any_sched.
+
+(* what was written is read back, message for message, then a clean end *)
+Theorem roundtrip_any_sched : forall max msgs sch eg,
+  Forall (fun m => N.of_nat (length m) <= max) msgs -> max < 4294967296 ->
+  read_all max (mk_src (write_all msgs) sch eg TEOF) = (msgs, FErr MEOF 0).
+Proof. exact roundtrip_any_sched_proof. Qed.
+Print Assumptions roundtrip_any_sched.
+
+(* a stream cut strictly inside a prefix or a body: the messages before it, then
+   unexpected EOF - never a clean end, never a shorter message *)
+Theorem truncation : forall max msgs m j sch eg,
+  Forall (fun m => N.of_nat (length m) <= max) msgs -> N.of_nat (length m) <= max -> max < 4294967296 ->
+  (0 < j < length (write_msg m))%nat ->
+  read_all max (mk_src (write_all msgs ++ firstn j (write_msg m)) sch eg TEOF) = (msgs, FErr MUnexpected 0).
+Proof. exact truncation_proof. Qed.
+Print Assumptions truncation.
+
+(* a length above the limit is refused with the source exactly past the 4-byte prefix
+   (all of `rest` unread), whatever follows and however the stream ends *)
+Theorem oversize_early : forall max msgs size rest sch eg t,
+  Forall (fun m => N.of_nat (length m) <= max) msgs -> max < size -> size < 4294967296 ->
+  read_all max (mk_src (write_all msgs ++ be32 size ++ rest) sch eg t) = (msgs, FErr MOversize (length rest)).
+Proof. exact oversize_early_proof. Qed.
+Print Assumptions oversize_early.
+
+Theorem zero_length_ok : forall max a b sch eg,
+  Forall (fun m => N.of_nat (length m) <= max) (a ++ b) -> max < 4294967296 ->
+  read_all max (mk_src (write_all (a ++ [] :: b)) sch eg TEOF) = (a ++ [] :: b, FErr MEOF 0).
+Proof. exact zero_length_ok_proof. Qed.
+Print Assumptions zero_length_ok.
+
+(* conversely, for ANY byte string: a clean end is reported only when the stream is
+   exactly the frames of the messages returned *)
+Theorem clean_end_is_eof : forall max d sch eg ms n,
+  Forall (fun b => b < 256) d ->
+  read_all max (mk_src d sch eg TEOF) = (ms, FErr MEOF n) -> d = write_all ms /\ n = 0%nat.
+Proof. exact clean_end_is_eof_proof. Qed.
+Print Assumptions clean_end_is_eof.
+
+(* a peer that stalls after j bytes of a frame: timeout naming the unit (prefix/message),
+   the bytes of it received and the bytes expected *)
+Theorem stall_reports : forall max msgs m j sch eg,
+  Forall (fun m => N.of_nat (length m) <= max) msgs -> N.of_nat (length m) <= max -> max < 4294967296 ->
+  (j < length (write_msg m))%nat ->
+  read_all max (mk_src (write_all msgs ++ firstn j (write_msg m)) sch eg TBlock) =
+  (msgs, FTimeout (4 <=? j)%nat (if (j <? 4)%nat then j else (j - 4)%nat)
+                  (if (j <? 4)%nat then 4 else N.of_nat (length m))).
+Proof. exact stall_reports_proof. Qed.
+Print Assumptions stall_reports.
+
+(* the peers' decoder (io.ReadFull, no limit): same reads, same results *)
+Theorem readfull_same : forall want s, read_full want s = read_n want s.
+Proof. exact read_full_same. Qed.
+Print Assumptions readfull_same.
+
+Theorem peer_decoder_any_sched : forall d sch eg t,
+  decode_all (mk_src d sch eg t) = expected None t d.
+Proof. exact decoder_any_sched_proof. Qed.
+Print Assumptions peer_decoder_any_sched.
+
+Theorem peer_decoder_same : forall max s,
+  (forall n, snd (read_all max s) <> FErr MOversize n) -> decode_all s = read_all max s.
+Proof. exact peer_decoder_same_proof. Qed.
+Print Assumptions peer_decoder_same.
+
+(* JSON variant, RELATIVE TO THE ORACLE: `scan` stands for encoding/json's scanner; the two
+   hypotheses are what is asked of it (exercised by the differential run, not proved). *)
+Theorem json_roundtrip_any_sched_partial : forall scan, scanner_skips_newline scan ->
+  forall vs sch eg, Forall (scanner_ok scan) vs ->
+  json_all scan (mk_src (json_write_all vs) sch eg TEOF) = (vs, JFErr MEOF).
+Proof. exact json_roundtrip_any_sched_proof. Qed.
+Print Assumptions json_roundtrip_any_sched_partial.
+
+(* the constants regenerated from the compiled code satisfy the theorems' hypotheses *)
+Theorem real_constants :
+  c09_prefix_len = 4 /\ c09_prefix_of_258 = be32 258 /\
+  c09_max_client_response < 4294967296 /\ c09_max_server_response < 4294967296.
+Proof. vm_compute. repeat split; reflexivity. Qed.
+Print Assumptions real_constants.
+
+(* ---- non-vacuity ---- *)
+Example ex_roundtrip :
+  read_all 16 (mk_src (write_all [[1; 2; 3]; []; [9]]) [1; 0; 2; 7; 1]%nat true TEOF) = ([[1; 2; 3]; []; [9]], FErr MEOF 0).
+Proof. vm_compute. reflexivity. Qed.
+Example ex_cut_after_prefix :
+  read_all 16 (mk_src [0; 0; 0; 2] [] false TEOF) = ([], FErr MUnexpected 0).
+Proof. vm_compute. reflexivity. Qed.
+Example ex_exact_limit_ok_one_more_not :
+  fst (read_all 2 (mk_src (write_all [[7; 7]]) [3]%nat false TEOF)) = [[7; 7]] /\
+  read_all 1 (mk_src (write_all [[7; 7]]) [3]%nat false TEOF) = ([], FErr MOversize 2).
+Proof. vm_compute. auto. Qed.
+Example ex_stall :
+  read_all 16 (mk_src [0; 0; 0; 5; 1; 2] [1; 1]%nat false TBlock) = ([], FTimeout true 2 5).
+Proof. vm_compute. reflexivity. Qed.
+(* the scanner used to run the model meets the oracle's hypotheses on a sample value *)
+Example ex_jscan_skips : scanner_skips_newline jscan.
+Proof. split; [reflexivity|intros; reflexivity]. Qed.
+Example ex_jscan_ok : scanner_ok jscan (bs "{""a"":[]}").
+Proof.
+  split; [intros; reflexivity|]. intros k Hk. cbn in Hk.
+  do 8 (destruct k as [|k]; [reflexivity|]). exfalso. lia.
+Qed.
